@@ -43,7 +43,7 @@ def run_checks(wt, props):
     res = {}
     for p in props:
         rc, out = sh(f"{PY} -m sa.check {p}", cwd=VERIF, env={"RICH_REPO": wt, "SA_NO_EVIDENCE": "1"}, timeout=300)
-        lines = [l.strip() for l in out.splitlines() if l.strip().startswith("R") and " in " in l or l.startswith("ANALYSIS-ERROR")]
+        lines = [l.strip() for l in out.splitlines() if (l.strip().startswith("R") and " in " in l and " instances - " not in l) or l.startswith("ANALYSIS-ERROR")]
         res[p] = {"exit": rc, "findings": lines[:6]}
     return res
 
@@ -71,7 +71,7 @@ def main(argv):
             notes = json.load(open(os.path.join(d, "notes.json")))
         except Exception:
             pass
-        for X in ("A", "B", "C", "D"):
+        for X in ("A", "B", "C", "D", "E", "F"):
             patch = os.path.join(d, f"{X}.patch.diff")
             alt = os.path.join(VERIF, "seeded", f"{pid}-{X}", "patch.diff")
             demo = os.path.join(d, f"{X}_demo.py")
